@@ -91,6 +91,33 @@ def unchecked_arith(fn):
             yield bb, 'call %s' % c
         elif CLAMP_CALL.match(c) and any(int_info(norm(x)) is not None for x in (t.get('targs') or [])):
             yield bb, 'call %s (clamps instead of rejecting)' % c
+        else:
+            why = normalising_call(t)
+            if why:
+                yield bb, 'call %s (%s)' % (c, why)
+
+
+LOSSY_TIME_CALL = re.compile(
+    r'^(core::time::Duration::(from_secs_f32|from_secs_f64|try_from_secs_f32|try_from_secs_f64|as_secs_f32|as_secs_f64|mul_f32|mul_f64|div_f32|div_f64|'
+    r'as_millis|as_micros|subsec_millis|subsec_micros)|'
+    r'chrono::round::(SubsecRound|DurationRound)::\w+|chrono::traits::Timelike::with_nanosecond|'
+    r'chrono::datetime::DateTime::(timestamp_millis|timestamp_micros|timestamp_subsec_millis|timestamp_subsec_micros)|'
+    r'chrono::time_delta::TimeDelta::(num_milliseconds|num_microseconds|subsec_millis|subsec_micros|abs))$')
+
+
+def normalising_call(t):
+    """third-party conversions that round, truncate or silently normalise a time value (so that an unrepresentable input is not
+    rejected): float routes, milli/microsecond accessors, chrono rounding, and chrono's DateTime -> SystemTime (which folds a leap
+    second's sub-second part >= 1e9 into the seconds)"""
+    c = norm(t.get('callee') or '')
+    if LOSSY_TIME_CALL.match(c):
+        return 'rounds / truncates the value'
+    ta = [norm(x) for x in (t.get('targs') or [])]
+    if c in ('core::convert::From::from', 'core::convert::Into::into') and len(ta) >= 2:
+        pair = set(x.split('<')[0] for x in ta[:2])
+        if pair == {'std::time::SystemTime', 'chrono::datetime::DateTime'}:
+            return 'chrono\'s DateTime <-> SystemTime conversion normalises a leap second instead of rejecting it'
+    return None
 
 
 NANOS_LIMIT = 1_000_000_000
